@@ -898,6 +898,61 @@ Proof.
     lia.
 Qed.
 
+(* ------------------------------------------------------------------ the size resolve_edits reports is a size in BYTES *)
+(* byte-length delta of a batch: every edit replaces e_e - e_s bytes by the bytes of its replacement text (whatever
+   ReplaceTgt variant carried it: the UTF-8 encoding of a char has 1..4 bytes, a string any number) *)
+Definition delta_bytes (es : list edit) : Z :=
+  fold_right (fun e a => (Z.of_nat (length (e_w e)) - Z.of_nat (e_e e - e_s e) + a)%Z) 0%Z es.
+
+Lemma add_replace_delta smap s e w rb rm d :
+  add_replace cfg smap s e w = Some (rb, rm, d) -> rb = w /\ d = (Z.of_nat (length w) - Z.of_nat (e - s))%Z.
+Proof.
+  unfold add_replace. destruct w as [|x w]; [intros H; inversion H; subst; split; [reflexivity | cbn; lia]|].
+  destruct (nth_error smap _); [|discriminate]. destruct (nth_error smap _); [|discriminate].
+  intros H. inversion H; subst. split; reflexivity.
+Qed.
+
+(* accepted batch: the reported size is the byte length of the rewritten text *)
+Theorem resolve_reports_byte_length : forall src smap edits t m l,
+  length smap = length src + 1 -> wf_text src = true -> edits_ok src edits = true ->
+  resolve cfg src smap edits 0 (Z.of_nat (length src)) = ROk t m l ->
+  l = Z.of_nat (length t) /\ l = (Z.of_nat (length src) + delta_bytes edits)%Z.
+Proof.
+  intros src smap edits t m l Hlen Hwf Hok Hr.
+  pose proof (resolve_len _ _ _ _ _ _ _ _ Hlen (Nat.le_0_l _) (is_boundary_0 _ Hwf) Hok Hr) as Hl.
+  split; [lia|]. clear Hl Hok Hwf Hlen.
+  assert (G : forall es start cl t m l, resolve cfg src smap es start cl = ROk t m l -> l = (cl + delta_bytes es)%Z).
+  { induction es as [|e rest IH]; intros start cl t' m' l' H; cbn [resolve delta_bytes fold_right] in *.
+    - destruct (str_slice src start (length src)); [|discriminate]. destruct (vec_slice smap start (length smap)); [|discriminate].
+      inversion H; lia.
+    - destruct (str_slice src start (e_s e)); [|discriminate]. destruct (vec_slice smap start (e_s e)); [|discriminate].
+      destruct (add_replace cfg smap (e_s e) (e_e e) (e_w e)) as [[[rb rm] d]|] eqn:Ea; [|discriminate].
+      destruct (add_replace_delta _ _ _ _ _ _ _ Ea) as [_ ->].
+      destruct (cmp_eval _ _ _); [discriminate|].
+      destruct (resolve cfg src smap rest (e_e e) _) as [t2 m2 l2| |] eqn:Er; try discriminate.
+      inversion H; subst. rewrite (IH _ _ _ _ _ Er). fold (delta_bytes rest). lia. }
+  exact (G _ _ _ _ _ _ Hr).
+Qed.
+
+(* rejected batch: the reported size is the byte length the text has after the edits seen so far, and it is over the limit *)
+Theorem resolve_too_long_is_byte_length : forall src smap edits start cl l,
+  resolve cfg src smap edits start cl = RTooLong l ->
+  exists es1 e es2, edits = es1 ++ e :: es2 /\ l = (cl + delta_bytes (es1 ++ [e]))%Z /\
+                    cmp_eval (c_resolve_cmp cfg) l (Z.of_N (c_resolve_limit cfg)) = true.
+Proof.
+  intros src smap edits. induction edits as [|e rest IH]; intros start cl l H; cbn [resolve] in H.
+  - destruct (str_slice src start (length src)); [|discriminate]. destruct (vec_slice smap start (length smap)); discriminate.
+  - destruct (str_slice src start (e_s e)); [|discriminate]. destruct (vec_slice smap start (e_s e)); [|discriminate].
+    destruct (add_replace cfg smap (e_s e) (e_e e) (e_w e)) as [[[rb rm] d]|] eqn:Ea; [|discriminate].
+    destruct (add_replace_delta _ _ _ _ _ _ _ Ea) as [_ ->].
+    destruct (cmp_eval (c_resolve_cmp cfg) _ _) eqn:Ec.
+    + inversion H; subst. exists [], e, rest. split; [reflexivity|]. split; [cbn; lia | exact Ec].
+    + destruct (resolve cfg src smap rest (e_e e) _) as [t2 m2 l2| |] eqn:Er; try discriminate.
+      inversion H; subst. destruct (IH _ _ _ Er) as (es1 & e' & es2 & -> & Hl & Hc).
+      exists (e :: es1), e', es2. split; [reflexivity|]. split; [|exact Hc].
+      rewrite Hl. cbn [app delta_bytes fold_right]. fold (delta_bytes (es1 ++ [e'])). lia.
+Qed.
+
 End Cfg.
 
 (* ------------------------------------------------------------------ a batch rejected by its closure is a no-op *)
